@@ -12,6 +12,7 @@ import (
 	"hash/fnv"
 	"math/bits"
 	"os"
+	"path/filepath"
 	"runtime"
 	"runtime/pprof"
 	"sort"
@@ -65,6 +66,25 @@ func (c *collector) add(vs []violation, in *caseInput) {
 		}
 		f.count++
 	}
+}
+
+func noEvidence() bool { return os.Getenv("VERIF_NO_EVIDENCE") != "" }
+
+// writeReplay: /verif/replays/C11-<n>.json, or a scratch directory when evidence is suppressed
+func writeReplay(n int, rf replayFile) (string, error) {
+	if !noEvidence() {
+		return evlib.WriteReplay(prop, n, rf)
+	}
+	dir := filepath.Join(evlib.Root(), "build", "scratch-replays")
+	if err := os.MkdirAll(dir, 0o755); err != nil {
+		return "", err
+	}
+	p := filepath.Join(dir, fmt.Sprintf("%s-%d-%d.json", prop, os.Getpid(), n))
+	raw, err := json.MarshalIndent(rf, "", " ")
+	if err != nil {
+		return p, err
+	}
+	return p, os.WriteFile(p, append(raw, '\n'), 0o644)
 }
 
 type bitset struct{ w []uint64 }
@@ -475,7 +495,7 @@ func run(tier string) int {
 		}
 		n++
 		nViol++
-		p, err := evlib.WriteReplay(prop, n, replayFile{Property: prop, Tier: tier, Signature: s, Detail: f.detail, Input: f.input})
+		p, err := writeReplay(n, replayFile{Property: prop, Tier: tier, Signature: s, Detail: f.detail, Input: f.input})
 		if err != nil {
 			fmt.Fprintln(os.Stderr, "machinery:", err)
 			return 2
@@ -518,7 +538,9 @@ func run(tier string) int {
 		WallS:      time.Since(start).Seconds(),
 		Violations: nViol,
 	}
-	if err := evlib.Write(ev); err != nil {
+	if noEvidence() {
+		// mutant runs must not overwrite the evidence of the real tree
+	} else if err := evlib.Write(ev); err != nil {
 		fmt.Fprintln(os.Stderr, "machinery: evidence:", err)
 		return 2
 	}
